@@ -146,7 +146,68 @@ func GuardTable(c *core.Ctx, rule, pkgPath, typ, mu string, guarded []string) in
 		isGuarded[f] = true
 	}
 	count := 0
-	for _, b := range Bodies(c, pkgPath) {
+	bodies := Bodies(c, pkgPath)
+	lockP := func(n ast.Node) bool { _, ok := mutexCall(info, n, typ, mu, "Lock", false); return ok }
+	unlockP := func(n ast.Node) bool { _, ok := mutexCall(info, n, typ, mu, "Unlock", false); return ok }
+	// helpers that are only ever called with the lock held start with it held
+	// (fixpoint over the package's call sites; exported functions, functions
+	// used as values and functions without a call site never qualify)
+	declOf := map[types.Object]*Body{}
+	for i := range bodies {
+		if bodies[i].Lit == nil {
+			if o := info.Defs[bodies[i].Decl.Name]; o != nil {
+				declOf[o] = &bodies[i]
+			}
+		}
+	}
+	entryHeld := map[*ast.FuncDecl]bool{}
+	for o, b := range declOf {
+		if !o.Exported() {
+			entryHeld[b.Decl] = true
+		}
+	}
+	for changed := true; changed; {
+		changed = false
+		sites := map[*ast.FuncDecl]int{}
+		bad := map[*ast.FuncDecl]bool{}
+		for i := range bodies {
+			b := &bodies[i]
+			held := b.G.HeldFrom(b.Lit == nil && entryHeld[b.Decl], lockP, unlockP)
+			for _, blk := range b.G.CFG.Blocks {
+				if !blk.Live {
+					continue
+				}
+				for _, n := range blk.Nodes {
+					for _, call := range cfgq.ExecCalls(n) {
+						if f := core.CalleeFunc(info, call); f != nil {
+							if tb, ok := declOf[f.Origin()]; ok {
+								sites[tb.Decl]++
+								if !held[n] {
+									bad[tb.Decl] = true
+								}
+							}
+						}
+					}
+					// a go/defer of the helper, or its use as a value, is not a held call site
+					switch x := n.(type) {
+					case *ast.GoStmt:
+						if f := core.CalleeFunc(info, x.Call); f != nil {
+							if tb, ok := declOf[f.Origin()]; ok {
+								bad[tb.Decl] = true
+							}
+						}
+					}
+				}
+			}
+		}
+		for d := range entryHeld {
+			if entryHeld[d] && (bad[d] || sites[d] == 0) {
+				entryHeld[d] = false
+				changed = true
+			}
+		}
+	}
+	for _, b := range bodies {
 		var root ast.Node = b.Decl.Body
 		if b.Lit != nil {
 			root = b.Lit
@@ -176,10 +237,7 @@ func GuardTable(c *core.Ctx, rule, pkgPath, typ, mu string, guarded []string) in
 		if len(accs) == 0 {
 			continue
 		}
-		held := b.G.Held(
-			func(n ast.Node) bool { _, ok := mutexCall(info, n, typ, mu, "Lock", false); return ok },
-			func(n ast.Node) bool { _, ok := mutexCall(info, n, typ, mu, "Unlock", false); return ok },
-		)
+		held := b.G.HeldFrom(b.Lit == nil && entryHeld[b.Decl], lockP, unlockP)
 		perField := map[string]int{}
 		for _, a := range accs {
 			if localFresh(info, root, a.sel.X) {
@@ -189,14 +247,14 @@ func GuardTable(c *core.Ctx, rule, pkgPath, typ, mu string, guarded []string) in
 			perField[a.sel.Sel.Name]++
 			key := fmt.Sprintf("%s/%s#%d", b.Name, a.sel.Sel.Name, perField[a.sel.Sel.Name])
 			c.Check(rule, key, a.sel.Pos(), held[a.node],
-				fmt.Sprintf("access to %s.%s must execute with %s.%s held on every path (Lock dominates, no explicit Unlock in between)", typ, a.sel.Sel.Name, typ, mu))
+				fmt.Sprintf("access to %s.%s must execute with %s.%s held on every path (Lock dominates, no explicit Unlock in between; a helper counts as locked only if every call site holds the lock)", typ, a.sel.Sel.Name, typ, mu))
 		}
 		// the lock is released on every normal exit
-		locks := b.G.Points(func(n ast.Node) bool { _, ok := mutexCall(info, n, typ, mu, "Lock", false); return ok })
+		locks := b.G.Points(lockP)
 		for i, lp := range locks {
 			rel := cfgq.Or(
 				func(n ast.Node) bool { _, ok := mutexCall(info, n, typ, mu, "Unlock", true); return ok },
-				func(n ast.Node) bool { _, ok := mutexCall(info, n, typ, mu, "Unlock", false); return ok },
+				unlockP,
 			)
 			ok, w := b.G.MustPassToExit(lp, true, rel)
 			c.Check(rule+".release", fmt.Sprintf("%s/%s#%d", b.Name, mu, i+1), lp.Node().Pos(), ok,
@@ -423,6 +481,79 @@ func ImplementersOf(c *core.Ctx, pkgPath, iface string) []*types.Named {
 		}
 		if types.Implements(types.NewPointer(named), it) {
 			out = append(out, named)
+		}
+	}
+	return out
+}
+
+// CondOps lists the sync.Cond fields on which cfg node n performs one of the
+// given methods (Wait/Signal/Broadcast). A call to a function of the same
+// package whose every path to a normal exit performs such an operation counts
+// as performing it (one level of wrapper resolution, e.g. `p.wakeWriter()`).
+func CondOps(c *core.Ctx, info *types.Info, n ast.Node, methods ...string) []string {
+	var out []string
+	direct := func(call *ast.CallExpr) (string, bool) {
+		sel, ok := ast.Unparen(call.Fun).(*ast.SelectorExpr)
+		if !ok {
+			return "", false
+		}
+		okm := false
+		for _, m := range methods {
+			okm = okm || sel.Sel.Name == m
+		}
+		if !okm {
+			return "", false
+		}
+		f := core.CalleeFunc(info, call)
+		if f == nil {
+			return "", false
+		}
+		sig, _ := f.Type().(*types.Signature)
+		if sig == nil || sig.Recv() == nil || core.NamedTypePath(sig.Recv().Type()) != "sync.Cond" {
+			return "", false
+		}
+		if fs, ok := ast.Unparen(sel.X).(*ast.SelectorExpr); ok {
+			return fs.Sel.Name, true
+		}
+		return "", false
+	}
+	for _, call := range cfgq.ExecCalls(n) {
+		if name, ok := direct(call); ok {
+			out = append(out, name)
+			continue
+		}
+		f := core.CalleeFunc(info, call)
+		if f == nil || f.Pkg() == nil {
+			continue
+		}
+		fn := c.FnOf(f)
+		if fn == nil || fn.Pkg.TypesInfo != info || fn.Decl.Body == nil {
+			continue
+		}
+		g := cfgq.Of(c.Program, fn)
+		seen := map[string]bool{}
+		for _, blk := range g.CFG.Blocks {
+			for _, m := range blk.Nodes {
+				for _, c2 := range cfgq.ExecCalls(m) {
+					if name, ok := direct(c2); ok {
+						seen[name] = true
+					}
+				}
+			}
+		}
+		for name := range seen {
+			name := name
+			ok, _ := g.MustPassToExit(g.Entry(), false, func(m ast.Node) bool {
+				for _, c2 := range cfgq.ExecCalls(m) {
+					if nm, ok := direct(c2); ok && nm == name {
+						return true
+					}
+				}
+				return false
+			})
+			if ok {
+				out = append(out, name)
+			}
 		}
 	}
 	return out
